@@ -3,6 +3,7 @@ CONSTANTS
   CRev = 54458
   SRev = 54458
   Behaviour = "cut"
+  CancelAt = 99
   Delay = 0
   Limit = 5
   AddendumRev = 54458
@@ -13,5 +14,6 @@ INVARIANT AddendumIff
 INVARIANT FailsCleanly
 INVARIANT LateHelloAccepted
 INVARIANT ExceptionCarried
+INVARIANT CancelEndsIt
 PROPERTY Terminates
 CHECK_DEADLOCK FALSE
